@@ -1,5 +1,6 @@
 import Driver.Sent
 import Driver.Bin
+import Driver.Tk
 /-! `vdriver`: reads one case per line on stdin, writes one response line per case. -/
 open V V.Drv
 
@@ -9,6 +10,8 @@ def handle (line : String) : String :=
   | "H" :: cfg :: preds :: ops :: _ => runH cfg preds ops
   | "F" :: cfg :: m :: pt :: h :: _ => runF cfg m pt h
   | "E" :: h :: _ => runE h
+  | "TK" :: m :: ws :: h :: cl :: _ => runTK m ws h cl
+  | "N" :: h :: _ => runN h
   | "B" :: r => runBin ("B" :: r)
   | "RS" :: r => runBin ("RS" :: r)
   | "RX" :: r => runBin ("RX" :: r)
